@@ -748,6 +748,8 @@ class Evaluator:
             return self._payload(x[2][0], "Ok" if True else "Some", i)
         if tag(x) == "filter" and vn == "Some":
             return self._payload(x[1], vn, i)
+        if tag(x) == "tryfrom" and vn == "Ok" and i == 0:
+            return x[1]
         if tag(x) == "rangenext" and vn == "Some" and i == 0:
             return x[1]
         if tag(x) == "variant" and x[2] == vn and isinstance(i, int) and i < len(x[3]):
@@ -1628,6 +1630,12 @@ class Evaluator:
         # ---- conversions
         if re.search(r"convert::(Into|From)(<.*>)?>?::(into|from)$", c) and len(args) == 1 and (_numeric(args[0])):
             return args[0]
+        m_tf = re.search(r"convert::num::<impl (?:std|core)::convert::TryFrom<(\w+)> for (\w+)>::try_from$|<(\w+) as (?:std|core)::convert::TryFrom<(\w+)>>::try_from$", c)
+        if m_tf and len(args) == 1 and _numeric(args[0]):
+            # checked integer conversion: Ok(x) exactly when x fits the target type
+            to = m_tf.group(2) or m_tf.group(3)
+            if INT_TY.match(to or ""):
+                return ("tryfrom", args[0], to)
         if re.search(r"clone::Clone::clone$", c) and t.get("self_ty") and INT_TY.match(t["self_ty"] or ""):
             return self._deref_val(args[0])
         if re.search(r"ops::Deref(Mut)?::deref(_mut)?$", c) or re.search(r"convert::AsRef(<.*>)?::as_ref$", c) and False:
@@ -1829,7 +1837,9 @@ class Evaluator:
                 if is_other and vals:
                     continue  # ambiguous
                 if is_other:
-                    if self._is_boolish(cond) and arms_all == [0]:
+                    opl = place_of(t["op"]) if t.get("op") else None
+                    op_ty = body.locals[opl["l"]]["ty"] if opl is not None and not opl["proj"] else None
+                    if arms_all == [0] and (op_ty == "bool" or (op_ty is None and self._shape_is_bool(cond))):
                         out.append((cond, ("eq", 1)))
                     else:
                         out.append((cond, ("ne", tuple(arms_all))))
@@ -1912,10 +1922,18 @@ class Evaluator:
             vals = [int(v) for v, b in t["arms"] if b == j]
             arms_all = [int(v) for v, _ in t["arms"]]
             if j == t["otherwise"] and not vals:
-                gs.append((cond, ("eq", 1)) if arms_all == [0] else (cond, ("ne", tuple(arms_all))))
+                opl = place_of(t["op"]) if t.get("op") else None
+                op_ty = body.locals[opl["l"]]["ty"] if opl is not None and not opl["proj"] else None
+                gs.append((cond, ("eq", 1)) if arms_all == [0] and (op_ty == "bool" or (op_ty is None and self._shape_is_bool(cond))) else (cond, ("ne", tuple(arms_all))))
             elif len(vals) == 1 and j != t["otherwise"]:
                 gs.append((cond, ("eq", vals[0])))
         return gs
+
+    def _shape_is_bool(self, c):
+        """a condition term that can only be a boolean (used when the operand's type is not at hand: a field of a payload)"""
+        if isinstance(c, Lin):
+            return False
+        return tag(c) in ("cmp", "not", "is", "booland", "boolor", "is_null", "needs_drop", "call", "field", "hload", "load", "phi", "upvar", "param")
 
     def _is_boolish(self, c):
         return tag(c) in ("cmp", "not", "is", "booland", "boolor", "is_null", "needs_drop") or True
@@ -2053,6 +2071,12 @@ def implied_facts(guards):
                     facts.add(("cmp", "Lt", x[1], x[2]))
                 elif rel in (("eq", 0), ("ne", (1,))):
                     facts.add(("cmp", "Ge", x[1], x[2]))
+            if tag(x) == "tryfrom":
+                # T::try_from(v) is Ok exactly when min(T) <= v <= max(T)
+                lo_, hi_ = {"u8": (0, 2**8 - 1), "u16": (0, 2**16 - 1), "u32": (0, 2**32 - 1), "u64": (0, 2**64 - 1), "usize": (0, 2**64 - 1),
+                            "i8": (-2**7, 2**7 - 1), "i16": (-2**15, 2**15 - 1), "i32": (-2**31, 2**31 - 1), "i64": (-2**63, 2**63 - 1), "isize": (-2**63, 2**63 - 1)}.get(x[2], (None, None))
+                if lo_ is not None and rel in (("eq", 0), ("ne", (1,))):
+                    facts |= implied_facts([(("cmp", "Ge", x[1], const(lo_)), ("eq", 1)), (("cmp", "Le", x[1], const(hi_)), ("eq", 1))])
             if tag(x) == "ordcmp":
                 # a.cmp(&b): Less = -1 (255 as an unsigned switch value), Equal = 0, Greater = 1
                 a_, b_ = x[1], x[2]
@@ -2087,6 +2111,13 @@ def implied_facts(guards):
                 facts.add(("discr", cond[1], ("eq", idx)))     # the same fact a `match` on the value gives
             else:
                 facts.add(("bool", cond, True))
+        elif isinstance(cond, Lin) and rel[0] in ("eq", "ne") and not (t in ("cmp", "not", "is", "booland", "boolor")):
+            # a `match` on an integer value (`Ok(0) => ..`): the tested value equals / differs from the pattern constants
+            if rel[0] == "eq":
+                facts |= implied_facts([(("cmp", "Eq", cond, const(rel[1])), ("eq", 1))])
+            else:
+                for k_ in rel[1]:
+                    facts |= implied_facts([(("cmp", "Ne", cond, const(k_)), ("eq", 1))])
         elif truth is not None:
             facts.add(("bool", cond, truth))
         else:
